@@ -56,3 +56,63 @@ Proof.
 Qed.
 End OMap.
 Arguments omap V : clear implicits.
+
+(* ---- key-level structure (used by the capacity / LRU proofs) ---- *)
+Section OMapKeys.
+Context {V : Type}.
+Implicit Types s : omap V.
+
+Definition neqk (k k' : key) : bool := negb (String.eqb k k').
+
+Lemma keys_remove s k : keys (remove s k) = filter (neqk k) (keys s).
+Proof.
+  induction s as [|[k0 e] s IH]; cbn; [reflexivity|]. unfold neqk at 1.
+  destruct (String.eqb k k0); cbn; [exact IH|f_equal; exact IH].
+Qed.
+Lemma remove_assign s k e : remove (assign s k e) k = remove s k.
+Proof.
+  induction s as [|[k0 e0] s IH]; cbn; [rewrite String.eqb_refl; reflexivity|].
+  destruct (String.eqb k k0) eqn:E; cbn; rewrite E; [reflexivity|f_equal; exact IH].
+Qed.
+Lemma set_shape s k e : move_to_end (assign s k e) k = remove s k ++ [(k, e)].
+Proof.
+  unfold move_to_end. rewrite lookup_assign, String.eqb_refl, remove_assign. reflexivity.
+Qed.
+Lemma keys_app s t : keys (s ++ t) = keys s ++ keys t.
+Proof. unfold keys. apply map_app. Qed.
+Lemma lookup_In s k e : lookup s k = Some e -> In k (keys s).
+Proof.
+  induction s as [|[k0 e0] s IH]; cbn; [discriminate|].
+  destruct (String.eqb_spec k k0) as [->|]; [left; reflexivity|right; auto].
+Qed.
+Lemma lookup_None s k : lookup s k = None -> ~ In k (keys s).
+Proof.
+  induction s as [|[k0 e0] s IH]; cbn; [auto|].
+  destruct (String.eqb_spec k k0) as [->|Hn]; [discriminate|].
+  intros E [H|H]; [congruence|exact (IH E H)].
+Qed.
+Lemma filter_neqk_notin (l : list key) k : ~ In k l -> filter (neqk k) l = l.
+Proof.
+  induction l as [|x l IH]; cbn; [reflexivity|]. intro H. unfold neqk at 1.
+  destruct (String.eqb_spec k x) as [->|]; [exfalso; apply H; left; reflexivity|].
+  cbn. f_equal. apply IH. intro; apply H; right; assumption.
+Qed.
+Lemma In_filter_neqk (l : list key) k x : In x (filter (neqk k) l) <-> In x l /\ x <> k.
+Proof.
+  rewrite filter_In. unfold neqk. destruct (String.eqb_spec k x); cbn; intuition congruence.
+Qed.
+Lemma NoDup_filter {A} (f : A -> bool) (l : list A) : NoDup l -> NoDup (filter f l).
+Proof.
+  induction 1 as [|x l Hx Hnd IH]; cbn; [constructor|].
+  destruct (f x); [constructor; [rewrite filter_In; tauto|exact IH]|exact IH].
+Qed.
+Lemma NoDup_snoc (l : list key) k : NoDup l -> ~ In k l -> NoDup (l ++ [k]).
+Proof.
+  intros Hnd Hk.
+  induction l as [|x l IH]; cbn.
+  - repeat constructor. auto.
+  - inversion Hnd; subst. constructor.
+    + rewrite in_app_iff. cbn. intros [H|[H|[]]]; [auto|]. apply Hk. left. auto.
+    + apply IH; [assumption|]. intro; apply Hk; right; assumption.
+Qed.
+End OMapKeys.
